@@ -447,6 +447,9 @@ func (f *FuncCtx) applyContract(st *State, c *Contract, fn *types.Func, recv *Te
 		f.panicFork(p, site)
 	}
 	for _, en := range c.Ensures {
+		if en.CheckOnly {
+			continue
+		}
 		env := f.conEnv(c, st, old, names)
 		fact := env.boolT(en.Expr)
 		if len(en.Props) > 0 {
